@@ -27,8 +27,8 @@ var commonAssumptions = []string{
 
 var properties = map[string]Property{
 	"C04": {
-		Level: "proof",
-		Rules: []string{"R-EVAL-WRITE", "R-DOC-EXT", "R-SET-USERONLY", "R-ENGINE", "G-IMPORTS"},
+		Level:       "proof",
+		Rules:       []string{"R-EVAL-WRITE", "R-DOC-EXT", "R-SET-USERONLY", "R-ENGINE", "G-IMPORTS"},
 		Explanation: "Decided (whole property): no instruction the library can execute during evaluation writes memory reachable from the source document (or from a value a user function returned), except inside the Set closures it hands out and never calls. Obligations = effect instructions (Store, MapUpdate, append, copy, delete, clear, writing library calls) in every function reachable from the evaluation closure in the points-to engine's call graph; an obligation is discharged when the points-to set of its written cells contains no DOC/caller-data object. Also: every external callee that receives document memory is tabled read-only (R-DOC-EXT), accessor closures are unreachable from library entry points (R-SET-USERONLY), the engine's evaluation call graph agrees with VTA (R-ENGINE). Not decided: nothing of the statement; what is assumed is listed under assumptions.",
 		Assumptions: []string{
 			"Andersen-style inclusion analysis (context-insensitive, field-sensitive, type-filtered) over go/ssa is a sound over-approximation for type-safe Go without unsafe/reflect mutation",
@@ -37,98 +37,98 @@ var properties = map[string]Property{
 		TrustedBase: []string{"go/types + go/ssa (x/tools v0.29.0)", "the regions engine (/verif/checker/internal/regions, about 1.3 kLOC)", "the library-call table in regions/call.go", "Go memory safety (no unsafe/cgo in the package: rule G-IMPORTS)"},
 	},
 	"C05": {
-		Level: "other",
-		Rules: []string{"R-EVAL-WRITE", "R-RESULT-FRESH", "R-TREE-CLOSED", "R-GLOBALS", "O-POOL", "R-ENGINE", "G-IMPORTS"},
+		Level:       "other",
+		Rules:       []string{"R-EVAL-WRITE", "R-RESULT-FRESH", "R-TREE-CLOSED", "R-GLOBALS", "O-POOL", "R-ENGINE", "G-IMPORTS"},
 		Explanation: "Decided (necessary core): evaluation has no memory between calls. Every effect instruction reachable from the evaluation closure writes only objects allocated during that evaluation or pooled scratch objects (never the parsed tree, a global, Config memory); the returned slice is an allocation of the call that no instruction stores into longer-lived memory; the returned function reaches no parser-owned, Config or pooled memory and no persistent parser state reaches an earlier tree; every package-level variable is a sync primitive, the lock-protected parser or never written after init; pooled objects are released on every path, never used after a direct release, never stored outside local variables, and result sinks are truncated before Put. Not decided: that two calls on equal documents compute equal results and equality with a fresh Retrieve (behavioural).",
 		Assumptions: []string{"sentinel exemption: the two package-level one-element lists may reach list parameters of validators/comparators/logical operators; premises (assigned only in init, never sliced/appended) are re-verified each run; that no comparator runs with a sentinel as left list on a feasible path is argued in DESIGN.md §3.A, not checked"},
 	},
 	"C06": {
-		Level: "other",
-		Rules: []string{"R-LOCK", "R-GLOBALS", "R-EVAL-WRITE", "R-TREE-CLOSED", "O-POOL", "R-ENGINE", "G-IMPORTS"},
+		Level:       "other",
+		Rules:       []string{"R-LOCK", "R-GLOBALS", "R-EVAL-WRITE", "R-TREE-CLOSED", "O-POOL", "R-ENGINE", "G-IMPORTS"},
 		Explanation: "Decided (necessary core; an effect/lockset argument, not a schedule exploration): the parser mutex is locked exactly once, in Parse's entry block, the deferred closure that unlocks it is registered immediately afterwards, Unlock dominates every return of that closure and nothing that can panic precedes it; every function that can hold parser-owned memory is reachable from user-callable entry points only through Parse; every other package-level variable is a sync primitive or never written after init; evaluation writes no memory shared between calls; pooled objects are private between acquire and release. Not decided: interleavings as such; races inside user functions or on documents the caller mutates.",
 		Assumptions: []string{"sync.Mutex and sync.Pool are correct; a sync.Pool object obtained by Get is private until Put"},
 	},
 	"C07": {
-		Level: "other",
-		Rules: []string{"O-MAPRANGE", "O-KEYSOURCE", "O-POOL", "O-LIFO", "O-SEQ", "R-EVAL-WRITE", "G-IMPORTS"},
+		Level:       "other",
+		Rules:       []string{"O-MAPRANGE", "O-KEYSOURCE", "O-POOL", "O-LIFO", "O-SEQ", "R-EVAL-WRITE", "G-IMPORTS"},
 		Explanation: "Decided (nearly the whole property, because order is structural in this code): every map range reachable during evaluation only stores the keys at consecutive indices of a slice resliced to len(map), and every path from the end of that loop to the function's return applies an ascending byte-wise string sort to that slice or passes the false edge of len(map) > 1; callers of the key accessor only read the slice, index the same map with its elements and release it after the loop (no use after release); every loop in the evaluation steps is a complete ascending loop (or the worklist's complete descending push loop) whose only exit is the loop condition; recursive descent takes W[len-1], shrinks W[:len-1], pushes children from len-1 down to 0 and never applies the next step after pushing. reflect.MapKeys/MapRange are outside the modelled reflect subset (G-IMPORTS). Not decided: nothing of substance; assumes sort.StringSlice.Sort sorts byte-wise.",
 	},
 	"C02": {
-		Level: "other",
-		Rules: []string{"P-RECOVER", "P-PANICTYPE", "P-ERRCHECK", "P-MEMO", "P-SCT", "ST-UNIFORM", "ST-BALANCE", "ST-TYPES", "ST-FRAMES", "TV-RULES", "TV-ACTIONS", "TV-WF", "TV-CATCHALL", "TV-ENGINE", "R-LOCK", "R-RESET", "G-IMPORTS"},
-		Explanation: "Decided (large structural part): (i) Parse registers, directly after taking the lock, a deferred closure that calls recover() unconditionally, stores a recovered error into the named error result and writes no other result; every explicit panic in parser code carries one of the four documented types; conversion errors (strconv, regexp, json) panic with a documented type or are propagated; (ii) the value stack is typed by abstract interpretation of the grammar (which translation validation ties to the running matcher): every action has one stack effect on all non-panicking paths (implicit defaults of exhaustive type switches are discharged from the producer types of the switched slot), every rule has one net effect, no derivation pops an empty stack or fails an unchecked assertion, frame save/load are paired and never index an empty list, and the start rule leaves the stack empty; the stack is empty at the start of every Parse (R-RESET); (iii) the grammar is well-formed (no left recursion / nullable repetition), the start rule is total, the parser is initialised without options (memoisation on), and hand-written recursion descends on the tree. Not decided: bounded time quantitatively, out-of-memory / stack depth for pathological nesting, bounds checks inside the generated matcher (rely on the end-symbol sentinel appended by reset: compared as boilerplate), the few index expressions in hand-written helpers (varBlockSet[1], literal[0], text[0:1]) which are listed as assumed.",
+		Level:       "other",
+		Rules:       []string{"P-RECOVER", "P-PANICTYPE", "P-ERRCHECK", "P-MEMO", "P-SCT", "ST-UNIFORM", "ST-BALANCE", "ST-TYPES", "ST-FRAMES", "TV-WF", "TV-CATCHALL", "TV-ENGINE", "R-LOCK", "R-RESET", "G-IMPORTS"},
+		Explanation: "Decided (large structural part): (i) Parse registers, directly after taking the lock, a deferred closure that calls recover() unconditionally, stores a recovered error into the named error result and writes no other result; every explicit panic in parser code carries one of the four documented types; conversion errors (strconv, regexp, json) panic with a documented type or are propagated; (ii) the value stack is typed by abstract interpretation of the grammar that the generated matcher actually runs (reconstructed by the decompiler, so the result does not depend on the published grammar): every action has one stack effect on all non-panicking paths (implicit defaults of exhaustive type switches are discharged from the producer types of the switched slot), every rule has one net effect, no derivation pops an empty stack or fails an unchecked assertion, frame save/load are paired and never index an empty list, and the start rule leaves the stack empty; the stack is empty at the start of every Parse (R-RESET); (iii) the grammar is well-formed (no left recursion / nullable repetition), the start rule is total, the parser is initialised without options (memoisation on), and hand-written recursion descends on the tree. Not decided: bounded time quantitatively, out-of-memory / stack depth for pathological nesting, bounds checks inside the generated matcher (rely on the end-symbol sentinel appended by reset: compared as boilerplate), the few index expressions in hand-written helpers (varBlockSet[1], literal[0], text[0:1]) which are listed as assumed.",
 		Assumptions: []string{"assumed obligations: varBlockSet[1] in the regexp callback (the pattern has one group), literal[0] (literals are built as one-element slices), text[0:1] in the negation action (the capture is never empty)"},
 	},
 	"C16": {
-		Level: "other",
-		Rules: []string{"N-KEYFLOW", "TV-RULES", "U-BYTES", "R-GLOBALS", "G-IMPORTS"},
+		Level:       "other",
+		Rules:       []string{"N-KEYFLOW", "TV-IDENT", "U-BYTES", "R-GLOBALS", "G-IMPORTS"},
 		Explanation: "Decided (structural part): the key of every member lookup during evaluation is the stored member name of a single-name step or a key of the object itself (no conversion, concatenation, slicing or call result on the way), and the constructor stores the name it is given verbatim; the identifier rules the running parser implements (character classes, escape alternatives) are those of the published grammar; the hand-written text transducers do not mix byte and character units (no byte-wise copy driven by a rune-wise range); the unescape routines consult no mutable package-level state. Not decided: that the three unescape routines invert JSON-style escaping for every string (a string-transducer equivalence).",
 	},
 	"C17": {
-		Level: "translation_validation",
-		Rules: []string{"TV-RULES", "TV-ACTIONS", "TV-WF", "TV-CATCHALL", "TV-ENGINE", "P-RESTRICT", "P-ERRCHECK", "P-PANICTYPE", "U-INDEX", "U-BYTES", "G-IMPORTS"},
+		Level:       "translation_validation",
+		Rules:       []string{"TV-RULES", "TV-ACTIONS", "TV-WF", "TV-CATCHALL", "TV-ENGINE", "P-RESTRICT", "P-ERRCHECK", "P-PANICTYPE", "U-INDEX", "U-RUNELEN", "G-IMPORTS"},
 		Explanation: "Translation validation of the generated packrat parser against the published grammar: each of the grammar's rules is decompiled from the goto-template code of its rule function or inlined copies and shown equivalent after normalisation (literals to rune sequences, classes to interval sets, e+ to e e*, `-switch` choices under FIRST-set side conditions); every action body in Execute equals the grammar's action as Go syntax; the grammar-independent engine is the generator's boilerplate; the start rule is total and its catch-all captures the rest after the longest path prefix. Plus: every documented semantic restriction is enforced where the construct is built; the reported position is a character index taken from the token tree and is never used to slice a byte string. Not decided: that strconv / regexp accept what the prose calls 'valid for Go' (they are the definition).",
 	},
 	"C18": {
-		Level: "other",
-		Rules: []string{"TV-RULES", "W-SPACE", "W-CAPTURE", "N-NUMCONV", "R-GLOBALS", "G-IMPORTS"},
-		Explanation: "Decided (structural part): on the grammar that translation validation ties to the running parser, optional blanks are accepted on the stated side(s) of every occurrence of `[`, `]`, `,`, `:`, the seven comparison tokens, `||`, `&&`, `!`, `?(`, `(`, `)` and around a whole path; no capture whose text becomes a number, name, function name or regular expression can contain optional blanks; integers and numbers are converted in base 10 / as 64-bit floats from the unmodified text (so `+` and leading zeros are harmless); the text conversions consult no mutable package-level state. Not decided: quote-style equivalence and `.x` vs `['x']` beyond 'same constructor', `$`-omission behaviour.",
+		Level:       "other",
+		Rules:       []string{"W-SPACE", "W-CAPTURE", "N-NUMCONV", "ST-FRAMES", "ST-BALANCE", "ST-TYPES", "R-GLOBALS", "G-IMPORTS"},
+		Explanation: "Decided (structural part): on the grammar the generated parser actually runs (reconstructed by the decompiler), optional blanks are accepted on the stated side(s) of every occurrence of `[`, `]`, `,`, `:`, the seven comparison tokens, `||`, `&&`, `!`, `?(`, `(`, `)` and around a whole path; no capture whose text becomes a number, name, function name or regular expression can contain optional blanks; integers and numbers are converted in base 10 / as 64-bit floats from the unmodified text (so `+` and leading zeros are harmless); the text conversions consult no mutable package-level state; every spelling the grammar derives — in particular a path starting with a bracket instead of `$` — leaves the action value stack well-typed and balanced, so no spelling fails with an internal error. Not decided: quote-style equivalence and `.x` vs `['x']` beyond 'same constructor', `$`-omission behaviour.",
 	},
 	"C03": {
-		Level: "other",
-		Rules: []string{"P-POST-NONEMPTY", "P-RTERR", "P-PANICTYPE", "P-ASSERT", "P-NILGUARD", "P-IFACE-EQ", "V-VALIDATED", "V-ACCEPT", "P-SCT", "O-SEQ", "I-OVERFLOW", "I-RANGE", "I-BUF", "I-PROGRESS", "G-IMPORTS"},
+		Level:       "other",
+		Rules:       []string{"P-POST-NONEMPTY", "P-RTERR", "P-PANICTYPE", "P-ASSERT", "P-NILGUARD", "P-IFACE-EQ", "V-VALIDATED", "V-ACCEPT", "P-SCT", "O-SEQ", "I-OVERFLOW", "I-RANGE", "I-BUF", "I-PROGRESS", "G-IMPORTS"},
 		Explanation: "Decided (structural part): (i) every return of a retrieve-family function is a fresh error value, the result of a step on the same sink, a variable proven non-nil, or nil on a path where the sink is known non-empty (must-analysis over appends and len(result)>0 edges), so success is never empty and every result[0] read follows a successful step; (ii) only the three documented runtime error types are converted to the runtime-error interface, each implements error, and ErrorFunctionFailed is built only under a non-nil error of a user-function call; (iii) no explicit panic in evaluation code, reflect.TypeOf(x) dereferenced only under x != nil, every unchecked assertion is a pool element, a runtime error asserted to error, or a validated comparator operand, and every interface comparison has a nil / comparable-concrete operand or validated operands; (iv) recursion cycles descend on the tree and loops are counted/range/worklist loops. Not decided: index expressions of the filter list protocol (valueList[0], left[index] in AND/OR, rightValues[0]) whose safety needs a relational length invariant (assumed); time bounds beyond termination. Also decided (v): subscript arithmetic cannot overflow, produced indices lie in [0, length-1], buffer writes are in range and subscript loops terminate (zone abstract interpretation, see C11).",
 		Assumptions: []string{"assumed obligations: the list-length protocol of filter evaluation (every computed list has length 1 or the member count)"},
 	},
 	"C08": {
-		Level: "other",
-		Rules: []string{"N-FORWARD", "N-DEEPEST", "O-SEQ", "B-CHAIN", "G-IMPORTS"},
+		Level:       "other",
+		Rules:       []string{"N-FORWARD", "N-DEEPEST", "O-SEQ", "B-CHAIN", "G-IMPORTS"},
 		Explanation: "Decided (structural part): every call of a step (retrieve on the next node, or one of the retrieve-family helpers) passes the caller's own root and the caller's own sink (or a private pooled sink), the emitters hand the next step exactly the value they would emit themselves (container[key] of their parameters); fan-out loops are complete and leave only through their loop condition, branch errors are only accumulated through the deepest-error helper; the chain builder re-assigns its link target from the current step on every iteration. Not decided (the behavioural statement itself): that the builder links `next` to Q on every branch (the live `$..['a','b'].c` defect is there) and the relational equality of the three retrievals.",
 	},
 	"C09": {
-		Level: "other",
-		Rules: []string{"V-OPS", "V-WIRE", "V-PREC", "V-SINGLE-RIGHT", "V-VALIDATED", "TV-RULES", "TV-ACTIONS", "G-IMPORTS"},
-		Explanation: "Decided (structural part): each ordering builder realises one operator on every path — straight operands with its own comparator, exchanged operands with the mirror comparator — and the four operators are each realised by exactly one builder; every comparator's loop keeps exactly the elements for which `element OP right` holds and blanks the others; `!=` is NOT(==) over the same operands in order; no comparison is built with a per-member operand on the right of a member-independent one (evaluation reads only right[0]). Not decided: the Boolean-algebra clause (index-wise merge of per-member lists in AND/OR/NOT, the length-1 whole-match convention) . Also decided: each comparison / logical token of the (translation-validated) grammar runs the builder of its own operator with (left, right) in source order, and `||` binds looser than `&&`, looser than comparison / parentheses / `!`.",
+		Level:       "other",
+		Rules:       []string{"V-OPS", "V-WIRE", "V-PREC", "V-SINGLE-RIGHT", "V-VALIDATED", "G-IMPORTS"},
+		Explanation: "Decided (structural part): each ordering builder realises one operator on every path — straight operands with its own comparator, exchanged operands with the mirror comparator — and the four operators are each realised by exactly one builder; every comparator's loop keeps exactly the elements for which `element OP right` holds and blanks the others; `!=` is NOT(==) over the same operands in order; no comparison is built with a per-member operand on the right of a member-independent one (evaluation reads only right[0]). Not decided: the Boolean-algebra clause (index-wise merge of per-member lists in AND/OR/NOT, the length-1 whole-match convention) . Also decided: each comparison / logical token of the grammar the generated parser runs runs the builder of its own operator with (left, right) in source order, and `||` binds looser than `&&`, looser than comparison / parentheses / `!`.",
 	},
 	"C10": {
-		Level: "other",
-		Rules: []string{"V-ACCEPT", "V-LITERAL", "V-VALIDATED", "V-SINGLE-RIGHT", "G-IMPORTS"},
+		Level:       "other",
+		Rules:       []string{"V-ACCEPT", "V-LITERAL", "V-VALIDATED", "V-SINGLE-RIGHT", "G-IMPORTS"},
 		Explanation: "Decided (structural part): every validator keeps exactly one JSON type on all paths (numeric: float64, with json.Number converted on every path), blanks everything else with the absence marker, reports 'found' exactly for kept elements and visits every element; each literal kind (float64, bool, string, nil) selects the direct-equality comparator with the validator keeping that kind, non-literals use reflect.DeepEqual with the permissive validator; ordering and regex comparators assert exactly the type their embedded validator keeps, after skipping the marker; the comparator call is dominated by successful validation of both operand lists. Not decided: which operand ends up on the right when both are non-member operands (the live `$.a == 1` vs `1 == $.a` json.Number discrepancy) and DeepEqual's numeric semantics across decodings.",
 	},
 	"C11": {
-		Level: "other",
-		Rules: []string{"I-OVERFLOW", "I-RANGE", "I-BUF", "I-PROGRESS", "O-SEQ", "G-IMPORTS"},
+		Level:       "other",
+		Rules:       []string{"I-OVERFLOW", "I-RANGE", "I-BUF", "I-PROGRESS", "O-SEQ", "G-IMPORTS"},
 		Explanation: "Decided (totality half, for every start/end/step/length): zone (difference-bound matrix) abstract interpretation with trace partitioning of every subscript implementation, helpers inlined, with subscript numbers ranging over the whole machine integer range and 0 <= length <= maxInt/16: no addition, subtraction, negation or multiplication on subscript values can leave the machine integer range (exact big-integer interval per operation); every integer stored into a produced index list lies in [0, length-1]; every write into and reslice of the pre-sized buffer is in range (for both loops, using the iteration-count lemma: a counter incremented once per iteration of a loop whose variable moves by at least one towards a fixed bound is bounded by the distance between start and bound); make() lengths are non-negative; every loop variable moves towards its bound by a provably non-zero amount (termination). The consuming loops visit the produced indices completely and in order (O-SEQ). Not decided: exactness w.r.t. Python slicing (which elements are selected) — a numerical property.",
 		Assumptions: []string{"a []interface{} cannot have more than maxInt/16 elements (element size 16 bytes)", "the iteration-count lemma (proved in DESIGN.md §3.G) is part of the trusted base"},
 	},
 	"C12": {
-		Level: "other",
-		Rules: []string{"N-ACCESS", "N-ACCFLAG", "G-IMPORTS"},
+		Level:       "other",
+		Rules:       []string{"N-ACCESS", "N-ACCFLAG", "G-IMPORTS"},
 		Explanation: "Decided (structural part): each of the three emission sites has one plain and one accessor branch selected by the node's own flag, and the accessor's Get re-reads exactly the location (or value) the plain branch emits; the flag-clearing pass sets the flag on every node it walks over and covers every retrieve edge that emits into the parent's sink (inner identifiers of a multi-name selector, its union twin); every place that attaches a chain as function argument or filter operand clears the flag on it. Not decided: equality of the two result sequences as such.",
 	},
 	"C13": {
-		Level: "other",
-		Rules: []string{"N-ACCESS", "N-FORWARD", "R-SET-USERONLY", "G-IMPORTS"},
+		Level:       "other",
+		Rules:       []string{"N-ACCESS", "N-FORWARD", "R-SET-USERONLY", "G-IMPORTS"},
 		Explanation: "Decided (large structural part): at the map and list emission sites Get is the single expression container[key] and Set is exactly one assignment container[key] = value, both on the very container and key variables (captured once, never re-assigned) that the plain branch reads; at the any-value site Get returns the captured value and Set is nil; the value forwarded to the next step is the emitted one; the library never calls the closures it hands out. Not decided: that the accessor at result index i belongs to the location a specification predicts.",
 	},
 	"C14": {
-		Level: "other",
-		Rules: []string{"N-FUNCALL", "N-FORWARD", "P-RTERR", "O-POOL", "B-CHAIN", "P-RESTRICT", "G-IMPORTS"},
+		Level:       "other",
+		Rules:       []string{"N-FUNCALL", "N-FORWARD", "P-RTERR", "O-POOL", "B-CHAIN", "P-RESTRICT", "G-IMPORTS"},
 		Explanation: "Decided (structural part): a function node calls its user function at exactly one site, outside loops; the filter function receives the node's current value; the aggregate receives the list of its private pooled sink, or element 0 as an array only under the parameter's value-group test being false and a successful checked assertion; the function's result is what is forwarded; ErrorFunctionFailed is built only when that call returned an error; the chain builder keeps its link target on the step just processed (so a step after an aggregate is linked behind the aggregate). Not decided: that the value-group flag is correct for the chain (the live `$.a.*.f()` defect), . Also decided: function names are looked up in the filter table first, then the aggregate table, else ErrorFunctionNotFound.",
 	},
 	"C15": {
-		Level: "other",
-		Rules: []string{"N-KIND", "P-NILGUARD", "P-RTERR", "N-DEEPEST", "G-IMPORTS"},
+		Level:       "other",
+		Rules:       []string{"N-KIND", "P-NILGUARD", "P-RTERR", "N-DEEPEST", "G-IMPORTS"},
 		Explanation: "Decided (structural part): every type-mismatch error is built under failed type tests of the node's current value, its expected-kind text is in one-to-one correspondence with the set of container kinds the node navigates, its found text is a constant for nil and reflect.TypeOf(current).String() of that same value under a nil guard, and it references the raising node's own descriptor; inside fan-out loops the surviving error is chosen only by the deepest-error helper. Not decided: which of several branch errors is reported (depends on text lengths / traversal order).",
 	},
 	"C20": {
-		Level: "other",
-		Rules: []string{"P-SENTINEL", "P-IFACE-EQ", "P-ASSERT", "P-NILGUARD", "N-KIND", "V-ACCEPT", "V-VALIDATED", "G-IMPORTS"},
+		Level:       "other",
+		Rules:       []string{"P-SENTINEL", "P-IFACE-EQ", "P-ASSERT", "P-NILGUARD", "N-KIND", "V-ACCEPT", "V-VALIDATED", "G-IMPORTS"},
 		Explanation: "Decided (large structural part): the absence marker has a package-private named comparable type; every interface ==/!= reachable during evaluation has a nil / comparable-concrete operand or operands validated to a JSON scalar type; every unchecked type assertion is justified; navigation only type-tests for the two JSON container types and reports other values by reflect type under a nil guard; validators blank every foreign type. Not decided: reflect.DeepEqual's behaviour on exotic values, what user functions do with opaque values.",
 	},
 	"C19": {
-		Level: "other",
-		Rules: []string{"R-RESET", "R-PEGRESET", "R-CONFIG", "R-TREE-CLOSED", "R-LOCK", "R-GLOBALS", "ST-BALANCE", "ST-FRAMES", "R-ENGINE", "G-IMPORTS"},
+		Level:       "other",
+		Rules:       []string{"R-RESET", "R-PEGRESET", "R-CONFIG", "R-TREE-CLOSED", "R-LOCK", "R-GLOBALS", "ST-BALANCE", "ST-FRAMES", "R-ENGINE", "G-IMPORTS"},
 		Explanation: "Decided (necessary core): every field of the global parser's action state that any Parse-phase function writes is zeroed by the deferred closure on every exit of Parse (whole-struct store of the zero value, or field-complete), also on panic; every matcher variable captured by rule closures and written during matching is assigned by the generated reset closure on every path (token tree: overwritten from index 0 and trimmed on success); pointers to the caller's Config are stored only into that action state; the returned function reaches no Config maps and no parser-owned memory, and persistent parser memory reaches no tree; no package-level variable other than the lock-protected parser is written after init (so no cache keyed by path can exist). Not decided: equality of outcomes across histories as such.",
 	},
 }
